@@ -89,6 +89,9 @@ func init() {
 	native("sort.Ints", sort.Ints)
 	native("sort.SearchInts", sort.SearchInts)
 	native("fmt.Sprint", fmt.Sprint)
+	native("fmt.Sprintf", fmt.Sprintf)
+	native("fmt.Sprintln", fmt.Sprintln)
+	native("fmt.Errorf", fmt.Errorf)
 }
 
 var errorIface = reflect.TypeOf((*error)(nil)).Elem()
